@@ -31,7 +31,8 @@ GRID = [
     ("aule.pcm32", "au.c", "au_open", "(SF_FORMAT_AU|SF_FORMAT_PCM_32|SF_ENDIAN_LITTLE)", 1, 0, 256, {}),
     ("caf.pcm16", "caf.c", "caf_open", "(SF_FORMAT_CAF|SF_FORMAT_PCM_16)", 1, 0, 4200, {}),
     ("voc.pcm16", "voc.c", "voc_open", "(SF_FORMAT_VOC|SF_FORMAT_PCM_16)", 0, 0, 256, {}),
-    ("voc.pcmu8", "voc.c", "voc_open", "(SF_FORMAT_VOC|SF_FORMAT_PCM_U8)", 0, 0, 256, {}),
+    ("voc.pcmu8", "voc.c", "voc_open", "(SF_FORMAT_VOC|SF_FORMAT_PCM_U8)", 0, 0, 256, {"IS_VOC_U8": 1}),
+    ("voc.pcmu8.probe_vocupd", "voc.c", "voc_open", "(SF_FORMAT_VOC|SF_FORMAT_PCM_U8)", 0, 0, 256, {}),
     ("svx.pcm16", "svx.c", "svx_open", "(SF_FORMAT_SVX|SF_FORMAT_PCM_16)", 1, 1, 256, {"SR_MAX": 65535}),
     ("svx.pcms8", "svx.c", "svx_open", "(SF_FORMAT_SVX|SF_FORMAT_PCM_S8)", 1, 1, 256, {"SR_MAX": 65535}),
     ("nist.pcm16", "nist.c", "nist_open", "(SF_FORMAT_NIST|SF_FORMAT_PCM_16)", 1, 0, 1100, {}),
@@ -46,7 +47,8 @@ GRID = [
 ]
 
 # configurations measured to finish on the unchanged tree; the rest stay in the thorough tier until tuned
-QUICK_TAGS = None   # None = all
+MONO_ONLY = ("svx", "htk")
+HEAVY = ("caf", "nist", "paf", "ircam", "mat5", "pvf", "wavex", "rf64")   # large or text headers: > 200 s per query, thorough tier only
 
 
 def rt_harnesses(update_now=False, only=None):
@@ -55,10 +57,14 @@ def rt_harnesses(update_now=False, only=None):
         if only and not any(o in tag for o in only):
             continue
         for ch in (1, 2):
+            if ch == 2 and tag.split(".")[0] in MONO_ONLY:
+                continue
             for nfix in (0, 1, 2, 3, 1000):
                 if ch == 2 and nfix in (2, 1000):
                     continue
                 if "probe" in tag and not (ch == 1 and nfix == 1):
+                    continue
+                if "probe_vocupd" in tag and not update_now:
                     continue
                 # WAV-family 'fmt ' parsers keep their fields in a union: a symbolic rate makes the encoding field
                 # non-constant for the symbolic executor -> rate on the grid there, symbolic everywhere else
@@ -82,10 +88,13 @@ def rt_harnesses(update_now=False, only=None):
                                  unwindset=["psf_fread.0:%d" % (cap + 1), "psf_fwrite.0:%d" % (cap + 1), "psf_memset.0:65", "strlen.0:70",
                                             "strcmp.0:70", "snprintf.0:41", "snprintf.1:41", "psf_binheader_writef.0:%d" % (cap + 2),
                                             "psf_binheader_writef.1:40", "psf_binheader_readf.1:40", "psf_binheader_readf.0:20",
-                                            "memcmp.0:24", "vsnprintf.0:41", "vsnprintf.1:41"],
+                                            "memcmp.0:24", "vsnprintf.0:300", "vsnprintf.1:300", "uint2tenbytefloat.0:34"],
                                  checks="mem", fsa=cap + 80,
-                                 include_env=("log_stub", "memfile", "memset_model", "snprintf_model", "libm_model"), timeout=200,
-                                 kf=["aiffrate"], probe_for=("aiffrate" if "probe_aiffrate" in tag else None),
+                                 include_env=("log_stub", "memfile", "memset_model", "snprintf_model", "libm_model"),
+                                 timeout=1500 if tag.split(".")[0] in HEAVY else 240,
+                                 tiers=("thorough",) if (tag.split(".")[0] in HEAVY or not ((ch == 1 and nfix in (0, 1, 1000)) or (ch == 2 and nfix == 1))
+                                                         or (sr not in (None, 44100) and tag != "wav.pcm16")) else ("quick", "thorough"),
+                                 kf=["aiffrate", "vocupd"], probe_for=("aiffrate" if "probe_aiffrate" in tag else "vocupd" if "probe_vocupd" in tag else None),
                                  functions=[openfn, cfile + " header writer/reader/close", "psf_binheader_writef", "psf_binheader_readf", "codec init"],
                                  bounds="N = %d frames (grid), sample rate %s, stale SF_INFO.frames any 64-bit value" % (
                                      nfix, "symbolic 1..max" if sr is None else str(sr))))
